@@ -227,6 +227,13 @@ def pattern_case(i):
                 c = np.asarray(fn(8), dtype=float)
                 if a.shape == c.shape and np.array_equal(a, c):
                     out.append(('SeedSensitive', 'different_seeds_equal', None))
+                # ... and NEIGHBOURING seeds (7 and 8) share no sample either: the streams of different seeds do not overlap
+                if ep.get('axis') is not None and a.shape == c.shape and a.ndim > ep['axis'] and a.shape[ep['axis']] >= 2:
+                    A_ = np.moveaxis(a, ep['axis'], 0).reshape(a.shape[ep['axis']], -1)
+                    C_ = np.moveaxis(c, ep['axis'], 0).reshape(a.shape[ep['axis']], -1)
+                    shared = [(i_, j_) for i_ in range(len(A_)) for j_ in range(len(C_)) if np.array_equal(A_[i_], C_[j_])]
+                    if shared:
+                        out.append(('SeedSensitive', 'neighbouring_seeds_share_a_sample', dict(pairs=shared[:3])))
                 # "within one call ... samples are mutually independent": a cell whose value depends on the seed is a continuous
                 # random variable; two samples of one call that share its value (probability zero under independence) share
                 # the draw
